@@ -31,6 +31,10 @@ func init() {
 				Run: ruleRunsAdjacent},
 			{ID: "C19.empty-in-empty-out", Floor: 10, Clause: "no exported xslices function from slice(s) to a slice returns a result that is non-empty on every path (an unconditional append of an element, a literal or a make with a positive constant length as the only thing returned): such a result is wrong for the empty input (Chunk, Runs, Map, Filter, Unique, … all map [] to [])",
 				Run: ruleEmptyInEmptyOut},
+			{ID: "C19.intersect-universal", Floor: 2, Clause: "xmaps.Intersection and xmaps.Intersects keep / report a key of the smallest set only if no membership test in any other set failed for it (typestate over the loop nest, reset per key), and do not use an existential library quantifier for that",
+				Run: ruleIntersectUniversal},
+			{ID: "C19.heap-nonempty", Floor: 3, Clause: "xsort.Merge's iterator and xsort.MinK call Pop/Peek only with evidence that the heap is non-empty (Len() > 0 test on the same heap, a Push before it on every path, or a drain loop counting down from Len()); a test against an arbitrary k is no evidence (k <= 0)",
+				Run: ruleHeapNonEmpty},
 			{ID: "C19.sample-bounds", Floor: 2, Clause: "rSample / rSampleSlice store into the reservoir only where next < n (resp. len(a)), slot and position coming from one sampler.Next call",
 				Run: ruleSampleBounds},
 		},
